@@ -529,9 +529,9 @@ def angdiff(a, b=None):
 
     """
     if b is None:
-        return np.mod(a + math.pi, 2 * math.pi) - math.pi
+        return np.mod(np.asarray(a) + math.pi, 2 * math.pi) - math.pi
     else:
-        return np.mod(a - b + math.pi, 2 * math.pi) - math.pi
+        return np.mod(np.asarray(a) - np.asarray(b) + math.pi, 2 * math.pi) - math.pi
 
 def removesmall(v, tol=100):
     """
